@@ -110,10 +110,16 @@ static void enumerate(void) {
     emit(&c, 0, "s@x.example", 1, R2, body, n, -1); c07_free(&c);
   }
   /* hop counts 97..102 from Received / Delivered-To lines */
-  for (int hops = 97; hops <= 102; hops++) for (int mix = 0; mix < 3; mix++) {
+  for (int hops = 97; hops <= 102; hops++) for (int mix = 0; mix < 4; mix++) {
     if (!c07_mine()) continue;
     hbuf m = {0};
     for (int i = 0; i < hops; i++) {
+      if (mix == 3) {   /* near misses that must not be counted, between lines that must */
+        static const char *miss[] = { "Receive\r\n", "Receivex: y\r\n", "Delivere: z\r\n", "xReceived: w\r\n", " Delivered-To: v\r\n", "Deliverex-To: u\r\n", "received\r\n" + 1 };
+        const char *ms = miss[i % 7]; hbuf_add(&m, ms, strlen(ms));
+        if (i % 2) hbuf_add(&m, LIT("DeliveredX\r\n")); else hbuf_add(&m, LIT("RECEIVED\r\n"));
+        continue;
+      }
       if (mix == 0 || (mix == 2 && i % 2)) hbuf_add(&m, LIT("Received: from a by b; date\r\n"));
       else if (mix == 1) hbuf_add(&m, LIT("DELIVERED-to: someone@ok.example\r\n"));
       else hbuf_add(&m, LIT("rEcEiVeD:x\r\n"));
